@@ -5,6 +5,7 @@ import (
 	"go/ast"
 	"go/token"
 	"go/types"
+	"sort"
 	"strings"
 
 	"golang.org/x/tools/go/cfg"
@@ -36,6 +37,62 @@ type waiterInfo struct {
 	chans    map[*types.Var]bool // channel fields the waiter selects on (directly or through a local alias)
 	reads    map[*types.Var]bool // guarded fields read inside the loop
 	notifyOK bool
+	group    map[*FuncDecl]bool // the waiter and the unexported helpers only it (transitively) calls
+}
+
+// waiterGroup: the waiter plus every unexported function of the package all of whose in-package call
+// sites lie in the group (a locked scan extracted into a helper stays part of the waiter).
+func waiterGroup(la *LockAnalysis, w *FuncDecl) map[*FuncDecl]bool {
+	callers := map[*types.Func]map[*FuncDecl]bool{}
+	for _, fd := range la.funcs {
+		info := fd.Pkg.TypesInfo
+		ast.Inspect(fd.Decl.Body, func(n ast.Node) bool {
+			switch x := n.(type) {
+			case *ast.GoStmt: // a goroutine started by the waiter is not part of it
+				if f := typeutil.StaticCallee(info, x.Call); f != nil {
+					if callers[f.Origin()] == nil {
+						callers[f.Origin()] = map[*FuncDecl]bool{}
+					}
+					callers[f.Origin()][nil] = true
+				}
+			case *ast.CallExpr:
+				if f := typeutil.StaticCallee(info, x); f != nil {
+					if callers[f.Origin()] == nil {
+						callers[f.Origin()] = map[*FuncDecl]bool{}
+					}
+					callers[f.Origin()][fd] = true
+				}
+			case *ast.SelectorExpr: // method value
+				if f, ok := info.Uses[x.Sel].(*types.Func); ok {
+					if callers[f.Origin()] == nil {
+						callers[f.Origin()] = map[*FuncDecl]bool{}
+					}
+					callers[f.Origin()][fd] = true
+				}
+			}
+			return true
+		})
+	}
+	group := map[*FuncDecl]bool{w: true}
+	for changed := true; changed; {
+		changed = false
+		for _, fd := range la.funcs {
+			if group[fd] || fd.Obj.Exported() || len(callers[fd.Obj]) == 0 {
+				continue
+			}
+			all := true
+			for c := range callers[fd.Obj] {
+				if !group[c] && c != fd {
+					all = false
+				}
+			}
+			if all {
+				group[fd] = true
+				changed = true
+			}
+		}
+	}
+	return group
 }
 
 func findWaiter(la *LockAnalysis) *waiterInfo {
@@ -105,14 +162,22 @@ func findWaiter(la *LockAnalysis) *waiterInfo {
 				return true
 			})
 		}
-		ast.Inspect(w.loop.Body, func(n ast.Node) bool {
-			if sel, ok := n.(*ast.SelectorExpr); ok {
-				if v, ok := info.Uses[sel.Sel].(*types.Var); ok && la.guarded[v] != "" {
-					w.reads[v] = true
-				}
+		w.group = waiterGroup(la, fd)
+		for g := range w.group {
+			var body ast.Node = g.Decl.Body
+			if g == fd {
+				body = w.loop.Body
 			}
-			return true
-		})
+			ginfo := g.Pkg.TypesInfo
+			ast.Inspect(body, func(n ast.Node) bool {
+				if sel, ok := n.(*ast.SelectorExpr); ok {
+					if v, ok := ginfo.Uses[sel.Sel].(*types.Var); ok && la.guarded[v] != "" {
+						w.reads[v] = true
+					}
+				}
+				return true
+			})
+		}
 		return w
 	}
 	return nil
@@ -191,7 +256,7 @@ func checkWakeups(r *Run, la *LockAnalysis) {
 	// stores
 	nStores := 0
 	for _, fd := range la.funcs {
-		if fd == w.fd {
+		if w.group[fd] {
 			continue
 		}
 		u := la.units[fd]
@@ -488,23 +553,30 @@ func checkRouting(r *Run, la *LockAnalysis) {
 	}
 	// receive reads only requested senders' slots: every read index of payloads in the waiter is a range variable over the expected set
 	if w := findWaiter(la); w != nil {
-		wu := r.G.UnitOf(w.fd)
-		winfo := w.fd.Pkg.TypesInfo
 		n := 0
-		ast.Inspect(w.fd.Decl.Body, func(x ast.Node) bool {
-			ie, ok := x.(*ast.IndexExpr)
-			if !ok {
+		var group []*FuncDecl
+		for g := range w.group {
+			group = append(group, g)
+		}
+		sort.Slice(group, func(i, j int) bool { return group[i].Decl.Pos() < group[j].Decl.Pos() })
+		for _, g := range group {
+			wu := r.G.UnitOf(g)
+			winfo := g.Pkg.TypesInfo
+			ast.Inspect(g.Decl.Body, func(x ast.Node) bool {
+				ie, ok := x.(*ast.IndexExpr)
+				if !ok {
+					return true
+				}
+				sel, ok := ast.Unparen(ie.X).(*ast.SelectorExpr)
+				if !ok || winfo.Uses[sel.Sel] != payloadField {
+					return true
+				}
+				n++
+				sh := wu.argShape(ie.Index, ie, 0)
+				r.Check(strings.HasPrefix(sh, "key(") && !strings.Contains(sh, payloadField.Name()), "C11.T1", FuncKey(w.fd.Obj)+" :: slot read", p.RelPos(ie.Pos()), "payload slot read with key `"+sh+"` (must be a range variable over the requested sender set, not over the mailbox)")
 				return true
-			}
-			sel, ok := ast.Unparen(ie.X).(*ast.SelectorExpr)
-			if !ok || winfo.Uses[sel.Sel] != payloadField {
-				return true
-			}
-			n++
-			sh := wu.argShape(ie.Index, ie, 0)
-			r.Check(strings.HasPrefix(sh, "key(") && !strings.Contains(sh, payloadField.Name()), "C11.T1", FuncKey(w.fd.Obj)+" :: slot read", p.RelPos(ie.Pos()), "payload slot read with key `"+sh+"` (must be a range variable over the requested sender set, not over the mailbox)")
-			return true
-		})
+			})
+		}
 		r.RequireCount("C11.T1", "slot reads in waiter", n, 1)
 	}
 	// A1: accounting
